@@ -152,6 +152,7 @@ ImplBody(b, a) ==
 
 \* ------------------------------------------------------------------ the family of prior body states (built by the driver with these actions)
 \* a new text box / table cell holds one empty paragraph; a new autoshape's paragraph already has <a:pPr algn="ctr"/>
+\* (site "nobody": a p:sp without a p:txBody - the first touch of its text_frame gives it a body with one empty paragraph)
 Empty(site) == << [props |-> IF site = "shape" THEN 1 ELSE 0, items |-> <<>>] >>
 PriorActs(p) ==
   CASE p = 1 -> <<>>                                                                       \* one empty paragraph
